@@ -312,7 +312,7 @@ pub fn exec_lnk(case: &[u64]) -> L {
                 let st = Rc::new(RefCell::new(CanSt { accept_all: true, ..Default::default() }));
                 let mut tx = Can::new(ross_protocol::interface::can::verif_sim::Can::new(CanDev(st.clone())));
                 for p in &pkts { if tx.try_send_packet(p).is_err() { return None; } }
-                for (j, f) in st.borrow().tx.iter().enumerate() { for _ in 0..gap_at(gaps, j) { toks.push(1); } toks.push(0); crate::s_frames::show_can_pub(f, &mut toks); }
+                for (j, f) in st.borrow().tx.iter().enumerate() { for _ in 0..gap_at(gaps, j) { toks.push(if alt { 2 } else { 1 }); } toks.push(0); crate::s_frames::show_can_pub(f, &mut toks); }   // alt: the driver reports an overrun instead of 'no data yet'
             }
             1 => {
                 let st = Rc::new(RefCell::new(UsartSt { accept_all: true, ..Default::default() }));
@@ -364,7 +364,7 @@ pub fn gen_lnk(r: &mut Rng, thorough: bool, cx: &mut Ctx) {
                 show_packet(&p, &mut l); prevp = Some(p);
             }
             // flags: 1 = full duplex (the receiving node transmits before it polls); serial port: 2 = EINTR inside frames, 4 = other 'no data' read failures
-            let fl = (if k % 5 == 3 { 1 } else { 0 }) | (if link == 2 && k % 7 == 2 { 2 } else { 0 }) | (if link == 2 && k % 7 == 5 { 4 } else { 0 });
+            let fl = (if k % 5 == 3 { 1 } else { 0 }) | (if link == 2 && k % 7 == 2 { 2 } else { 0 }) | (if link != 1 && k % 7 == 5 { 4 } else { 0 });
             if fl != 0 { l.push(fl); }
             cx.emit(&l);
         }
